@@ -164,7 +164,9 @@ OWNED_PREFIX = ('diff:', 'not_compilable', 'unexpected_exception', 'undocumented
 
 
 def check_position(case, ctx):
-    tree = case['tree']
+    tree = dsl.entangle(case['tree'], case.get('entangle'))
+    if tree is not case['tree']:
+        ctx.count('entangled_literal')
     o = treecheck.evaluate(tree, case.get('tseed', 0), leaf_mode='escape', extra_texts=case.get('xt', ()))
     ctx.count(f'outcome:{o.kind.split(":")[0]}')
     if o.kind.startswith(OWNED_PREFIX):
@@ -234,7 +236,7 @@ def strategy(spec, ctx):
         feats = [f for f in dsl.swarm_features(ctx.seed, ctx.shard_index) if f not in ('cls', 'tok', 'empty', 'wb')] + ['strarg', 'meta']
     return st.fixed_dictionaries({'mode': st.just('position'),
                                   'tree': dsl.tree_strategy(feats, max_leaves=spec.get('max_leaves', 4), leaf=str_leaf()),
-                                  'tseed': st.integers(0, 2 ** 16)})
+                                  'tseed': st.integers(0, 2 ** 16), 'entangle': dsl.entangle_strategy()})
 
 
 def enumerated(maxlen, part, parts):
